@@ -160,8 +160,9 @@ class FactoryRun:
         if t == "Splitter":
             from factorysimpy.nodes.splitter import Splitter
             d = self.vs(n["id"], "delay", n["delay"])
+            kw = {"split_quantity": n["split_quantity"]} if "split_quantity" in n else {}
             return Splitter(env, n["id"], node_setup_time=n.get("setup", 0), processing_delay=d.as_param(),
-                            blocking=n.get("blocking", True),
+                            blocking=n.get("blocking", True), **kw,
                             in_edge_selection=self.sel_param(n["id"], "in_sel", n.get("in_sel", "FIRST_AVAILABLE")),
                             out_edge_selection=self.sel_param(n["id"], "out_sel", n.get("out_sel", "FIRST_AVAILABLE")))
         if t == "Combiner":
